@@ -49,9 +49,11 @@ configurations / depth 5 thorough on all 12).  Shards = configuration x first ev
 canonical states (a state reached under two first events is counted twice; core shards
 count only the histories of the additional depth).
 
-Measured on this sandbox while ~80 other processes were runnable on its 16 cores
-(wall times are therefore upper bounds): quick 166,827 histories, 1,630 outcome
-signatures, ~390 CPU-s (326 s wall with 6 workers); thorough: see describe()/evidence.
+Measured on this sandbox while 80-150 other processes were runnable on its 16 cores
+(CPU seconds are inflated by the contention, wall times are not representative):
+quick     166,827 histories, 1,630 outcome signatures, ~390 CPU-s  (est. 20-30 s wall on 16 idle cores)
+thorough  3,078,736 histories, 2,416,318 states, 2,626 outcome signatures, ~9,400 CPU-s
+          (est. 6-10 min wall on 16 idle cores)
 """
 import html as _html
 import io
